@@ -379,6 +379,38 @@ theorem jsonl_same_bytes_decoded (l : List Nat) :
     lineNorm (l ++ [10]) = lineNorm l ∧ lineNorm (l ++ [13, 10]) = lineNorm l :=
   ⟨lineNorm_rel _ l (Or.inr (Or.inl rfl)), lineNorm_rel _ l (Or.inr (Or.inr rfl))⟩
 
+/-! ## every `next()` call, errors included (strict mode resumed after an error) -/
+
+/-- a plain `for` loop over the iterator sees the `next()` results up to the first error -/
+theorem jsonl_drain_is_prefix_of_outcomes (parse : List Nat → Except ε α) (ig : Bool) (ls : List (List Nat)) :
+    consume parse ig ls = untilError (outcomes parse ig ls) :=
+  consume_eq_untilError parse ig ls
+
+/-- the full statement for strict mode, with NO hypothesis on where errors occur: the sequence of
+    `next()` results — objects AND raised errors, the iteration being resumed after each error — in
+    reverse mode is the forward sequence reversed (binary, LF/CRLF-separated; any block size) -/
+theorem jsonl_outcomes_forward_reverse_binary (parse : List Nat → Except ε α) (ig : Bool)
+    (c : List Nat) (hcr : noLoneCR c = true) (bs : Nat) (hbs : 1 ≤ bs) :
+    outcomes parse ig (reverseIterLines c bs) = (outcomes parse ig (fileLinesB c)).reverse := by
+  unfold outcomes
+  rw [reverse_lines c bs hbs, List.filterMap_reverse]
+  congr 1
+  by_cases hne : c = []
+  · subst hne; simp [linesOf_nil, fileLinesB]
+  · rw [linesOf_eq_sepLines c hcr hne, ← filterMap_fileLinesB'G _ (outcomeOf_nil parse ig),
+      filterMap_relG _ (outcomeOf_rel parse ig) _ _ (fileLinesB'_rel c hcr)]
+
+/-- the same for text-mode files, every content -/
+theorem jsonl_outcomes_forward_reverse_text (parse : List Nat → Except ε α) (ig : Bool)
+    (c : List Nat) (bs : Nat) (hbs : 1 ≤ bs) :
+    outcomes parse ig (reverseIterLines c bs) = (outcomes parse ig (fileLinesT false c)).reverse := by
+  unfold outcomes
+  rw [reverse_lines c bs hbs, List.filterMap_reverse]
+  congr 1
+  rw [filterMap_linesOfG _ (outcomeOf_nil parse ig),
+    filterMap_relG _ (outcomeOf_rel parse ig) _ _ (fileLinesT_rel false c)]
+  rfl
+
 /-! ## JSONLIterator with `rel_seek` (text-mode files of single-byte characters) -/
 
 /-- `_align_to_newline` puts the file ON the first line break at or after the target offset -/
@@ -493,5 +525,12 @@ example : alignToNewline [51, 10, 51] 2 = none := by decide
 example : decodeG false [97, 226, 128, 168, 195, 169, 10, 98] = some [97, 8232, 233, 10, 98] := by decide
 example : reverseIterLinesText [97, 226, 128, 168, 195, 169, 10, 98] 2 = [some [98], some [97, 8232, 233]] := by decide
 example : decodeG false [237, 160, 128] = none ∧ decodeG true [237, 160, 128] = some [55296] := by decide
+
+-- strict mode resumed after the error on "x": forward 3, error, 3 — reverse the same backwards
+example : (outcomes toyParse false (fileLinesB [51, 10, 120, 10, 51, 10])).map Except.toOption
+    = [some 3, none, some 3] := by decide
+example : (outcomes toyParse false (reverseIterLines [51, 10, 120, 10, 51, 10] 2)).map Except.toOption
+    = [some 3, none, some 3] := by decide
+example : untilError (outcomes toyParse false (fileLinesB [51, 10, 120, 10, 51, 10])) = ([3], some ()) := by decide
 
 end C19
